@@ -149,6 +149,8 @@ where
     iter: LineColIterator<io::Bytes<R>>,
     /// Temporary storage of peeked byte.
     ch: Option<u8>,
+    /// Position before the peeked byte was fetched from `iter`.
+    ch_position: Position,
 }
 
 /// S-expression input source that reads from a slice of bytes.
@@ -184,6 +186,19 @@ where
         IoRead {
             iter: LineColIterator::new(reader.bytes()),
             ch: None,
+            ch_position: Position { line: 1, column: 0 },
+        }
+    }
+}
+
+impl<R> IoRead<R>
+where
+    R: io::Read,
+{
+    fn iter_position(&self) -> Position {
+        Position {
+            line: self.iter.line(),
+            column: self.iter.col(),
         }
     }
 }
@@ -262,14 +277,18 @@ where
     fn peek(&mut self) -> Result<Option<u8>> {
         match self.ch {
             Some(ch) => Ok(Some(ch)),
-            None => match self.iter.next() {
-                Some(Err(err)) => Err(Error::io(err)),
-                Some(Ok(ch)) => {
-                    self.ch = Some(ch);
-                    Ok(self.ch)
+            None => {
+                let position = self.iter_position();
+                match self.iter.next() {
+                    Some(Err(err)) => Err(Error::io(err)),
+                    Some(Ok(ch)) => {
+                        self.ch = Some(ch);
+                        self.ch_position = position;
+                        Ok(self.ch)
+                    }
+                    None => Ok(None),
                 }
-                None => Ok(None),
-            },
+            }
         }
     }
 
@@ -279,16 +298,18 @@ where
     }
 
     fn position(&self) -> Position {
-        Position {
-            line: self.iter.line(),
-            column: self.iter.col(),
+        // A peeked byte has already been counted by the LineColIterator, but
+        // has not been consumed yet.
+        match self.ch {
+            Some(_) => self.ch_position,
+            None => self.iter_position(),
         }
     }
 
     fn peek_position(&self) -> Position {
         // The LineColIterator updates its position during peek() so it has the
         // right one here.
-        self.position()
+        self.iter_position()
     }
 
     fn byte_offset(&self) -> usize {
